@@ -771,9 +771,9 @@ Proof.
   intro Ef. destruct mode as [w|]; [apply dvm_law_wt; [apply c04_shape_dv_wt | exact Ef] | now apply (c04_dvm_law_map c m Kp encf dec slv ldc ldr inp np)].
 Qed.
 Theorem c04_set_preloads_fresh (c : @convolver ROps) (m : mask) (Kp : @kernel ROps) encf dec slv ldc ldr (Cm : cmpk R)
-  (inp0 : input R) (np : nat) own0 cmdm0 f0 f1 reads0 ss P :
+  (inp0 : input R) (np : nat) own0 f0 f1 reads0 ss P :
   wf_input c encf np inp0 ->
-  make_fit (KR c m Kp encf dec slv ldc ldr) inp0 own0 cmdm0 = Ok f0 ->
+  make_fit (KR c m Kp encf dec slv ldc ldr) inp0 own0 = Ok f0 ->
   consistent (KR c m Kp encf dec slv ldc ldr) inp0 (f_mode f0) own0 ->
   consistent (KR c m Kp encf dec slv ldc ldr) inp0 (f_mode f0) P ->
   let K := KR c m Kp encf dec slv ldc ldr in
@@ -784,6 +784,6 @@ Theorem c04_set_preloads_fresh (c : @convolver ROps) (m : mask) (Kp : @kernel RO
   (forall h, make_inversion K inp0 P' = Ok (f_mode f0) ->
              fst (run_history K inp0 code P' h) = map (fun qs => Ok (map (pure K inp0 (f_mode f0)) qs)) h).
 Proof.
-  intros WF Hmk Hown HP. apply (set_preloads_fresh R (KR c m Kp encf dec slv ldc ldr) Cm inp0 own0 cmdm0 f0 f1 reads0 ss P); try assumption.
+  intros WF Hmk Hown HP. apply (set_preloads_fresh R (KR c m Kp encf dec slv ldc ldr) Cm inp0 own0 f0 f1 reads0 ss P); try assumption.
   now apply (c04_set_laws c m Kp encf dec slv ldc ldr inp0 np).
 Qed.
